@@ -2146,6 +2146,8 @@ def _redit7(rng, d=None):
 
 
 WS_ALPHA = ['A', 'a', 'C', '-', ' ', ' ', '\t', '\n', '\r', '\x0b', '\x0c', '\x1c', '\x1d', '\x1e', '\x1f', 'n']
+# characters next to the letter ranges (isalpha / isupper / islower boundaries), digits, DEL
+EDGE_CHARS = ['Z', 'z', '@', '[', '`', '{', '0', '9', '_', '\x7f', '\x00']
 
 
 def _rquery7(rng, d):
@@ -2173,16 +2175,21 @@ def _rquery7(rng, d):
 def _gen_strq(rng):
     """One raw residue string (white space of every kind, line ends incl. \\r\\n, lower case), a batch of round-7 queries and edits."""
     shape = rng.random()
-    if shape < 0.45:
+    if shape < 0.1:
+        d = ''.join(rng.choice(EDGE_CHARS + ['A', 'a', 'A', 'a']) for _ in range(rng.choice([1, 2, 3, 5])))
+    elif shape < 0.45:
         d = ''.join(rng.choice(WS_ALPHA) for _ in range(rng.choice([0, 1, 2, 3, 5, 8, 12])))
     elif shape < 0.6:
         d = ''.join(rng.choice(['A', 'c', '\r\n', '\n', '\r', '\n\r', ' ', '\x1c']) for _ in range(rng.choice([1, 3, 6])))
     elif shape < 0.8:
         d = _rs(rng, rng.choice([0, 1, 3, 6, 10]), 'ACGTacgt')
+        if rng.random() < 0.5:
+            i = rng.randint(0, len(d))
+            d = d[:i] + rng.choice(EDGE_CHARS) + d[i:]
     else:
         d = _rs(rng, rng.choice([2, 5, 9]), 'AAa--C ')
-    qs = [_rquery7(rng, d) for _ in range(rng.choice([4, 6, 8]))]
-    es = [_redit7(rng, d) for _ in range(rng.choice([2, 3, 4]))]
+    qs = [_rquery7(rng, d) for _ in range(rng.choice([4, 6, 8]))] + [{'q': 'isalpha'}, {'q': 'isupper'}, {'q': 'islower'}]
+    es = [_redit7(rng, d) for _ in range(rng.choice([2, 3, 4]))] + [{'e': rng.choice(['lower', 'upper', 'swapcase'])}]
     return {'op': 'strq', 'd': d, 'qs': qs, 'es': es}
 
 
